@@ -170,6 +170,12 @@ func read_external(rdr *tokenReader, placeholderValues *HashMap, ns EnvType) (Ma
 	}
 	args := lst.(List).Val
 	// cursor := lst.(List).Cursor
+	if len(args) == 0 || !Q[Symbol](args[0]) {
+		return nil, lisperror.NewLispError(errors.New("expected a constructor name after '«'"), lst)
+	}
+	if ns == nil {
+		return nil, lisperror.NewLispError(errors.New("Go constructors cannot be read without an environment"), lst)
+	}
 	symbol := Symbol{Val: "new-" + args[0].(Symbol).Val}
 	constructor, err := ns.Get(symbol)
 	if err != nil {
